@@ -422,7 +422,7 @@ func cmdCheck(args []string) {
 			continue
 		}
 		violations++
-		rp := writeReplay(*vdir, *prop, o, env, *repo)
+		rp := writeReplay(*vdir, *prop, o, env, *repo, unitOf[o])
 		suffix := ""
 		if !rp.Reproduced {
 			suffix = " no-failing-input-found"
@@ -607,11 +607,16 @@ type replayInfo struct {
 	Reproduced bool
 }
 
-func writeReplay(vdir, prop string, o *Oblig, env *Env, repo string) replayInfo {
+func writeReplay(vdir, prop string, o *Oblig, env *Env, repo string, u *Unit) replayInfo {
 	path := filepath.Join(vdir, "replays", prop, safeName(o.Name)+".json")
 	rr := replayResult{Why: "no replay driver for this kind of obligation; the solver's output is attached"}
 	if o.Fn == "cfb" {
 		if src, ok := cfbReplayTest(o.Name); ok {
+			rr = runReplayTest(repo, src)
+		}
+	}
+	if safetyKinds[o.Kind] && o.Result == "sat" && u != nil {
+		if src, ok := modelReplayTest(env, u, o); ok {
 			rr = runReplayTest(repo, src)
 		}
 	}
